@@ -28,7 +28,7 @@ RULE += ('; also: saves that fail half way (unpicklable value), mutable inputs c
 ASSUMPTIONS = ['exception classes are not compared (KeyError vs FileNotFoundError are both "raises")', 'listings compared as sets',
                'bundles compared structurally (exceptions by type and args)']
 REQUIRED = ['saves_compared_with_live', 'failed_saves', 'failed_overwrites', 'ops/save', 'ops/load', 'ops/list', 'ops/listp', 'ops/del', 'ops/delp', 'ops/progress', 'ops/loadrun', 'loads_compared', 'loads_after_progress',
-            'absent_loads', 'overwrites', 'pidkind/int', 'pidkind/uuid', 'pidkind/str']
+            'absent_loads', 'overwrites', 'pidkind/int', 'pidkind/uuid', 'pidkind/str', 'pidkind/glob']
 BOUNDS = {'quick': '900 histories of 6-16 ops', 'thorough': '9000 histories of 8-25 ops'}
 
 
@@ -52,8 +52,9 @@ generated.register(CtxProg, 'CtxProg')
 S = programs.step
 PROGRAM = {'steps': [S(['wait', 'w0', None], sync=True), S(['cont', [[1, 2]], {}], yields=1), S(['wait', 'w1', {'d': 1}], sync=True),
                      S(['value', 9], sync=True)]}
-PIDS = {'int': [1, 10, 12], 'uuid': [uuid.UUID(int=7), uuid.UUID(int=8), uuid.UUID(int=9)], 'str': ['job', 'job2', 'a']}
-TAGS = {'int': [None, 1, 2, 0], 'uuid': [None, uuid.UUID(int=77)], 'str': [None, 't', 'tt', 'job', '']}
+# ('glob': separator-free strings that contain characters with a meaning in file-name patterns)
+PIDS = {'int': [1, 10, 12], 'uuid': [uuid.UUID(int=7), uuid.UUID(int=8), uuid.UUID(int=9)], 'str': ['job', 'job2', 'a'], 'glob': ['calc[1]', 'calc1', 'job-[a-z]*']}
+TAGS = {'int': [None, 1, 2, 0], 'uuid': [None, uuid.UUID(int=77)], 'str': [None, 't', 'tt', 'job', ''], 'glob': [None, 't[0]', '?', 't0']}
 OPS = ['save'] * 5 + ['load'] * 5 + ['progress'] * 4 + ['list', 'listp', 'del', 'delp', 'loadrun', 'loadrun', 'badsave']
 
 
@@ -61,7 +62,7 @@ def gen_cases(tier, seed):
     rng = plans.rng_for(seed, 'c14')
     n, lo, hi = (900, 6, 16) if tier == 'quick' else (9000, 8, 25)
     for h in range(n):
-        kind = ['int', 'uuid', 'str'][h % 3]
+        kind = ['int', 'uuid', 'str', 'glob'][h % 4]
         hist = []
         keys = set()
         for _ in range(rng.randint(lo, hi)):
